@@ -1,5 +1,6 @@
 import Rv.Model.Race
 import Rv.Lemmas.Race
+import Rv.Generated.Shapes
 /-
   C15: the lock-set argument against the Go memory model's happens-before for
   mutexes. Every statement is about ALL well-formed traces: any length, any
@@ -8,6 +9,14 @@ import Rv.Lemmas.Race
 -/
 namespace Rv.Props.C15
 open Rv.Race
+
+/-- the CURRENT source hands entry metadata out of the cache only as private
+    snapshots taken under the entry's lock: to the janitor (cacheIterator) and to
+    callers of Get / GetMetadata / Cache (extracted shapes). The access facts
+    treat fields read through such values as private memory on the strength of
+    exactly this. -/
+theorem cache_hands_out_snapshots :
+    Rv.Generated.metadataHandedOut = "snapshot" ∧ Rv.Generated.iteratorYields = "snapshot" := by decide
 
 /-- Two events of different goroutines, each made while its goroutine holds the
     same lock instance `l`, not both in shared mode, are ordered by
